@@ -176,7 +176,7 @@ class AliasTwin(BoundedCheck):
             names = self.ALIAS_NAMES[:k]
             for targets in itertools.product(self.VARS + self.ALIAS_NAMES[:k], repeat=k):
                 amap = dict(zip(names, targets))
-                for pref in ([], ['Y'], names[:1], names[:2] if k >= 2 else []):
+                for pref in ([], ['Y'], names[:1], names[:2] if k >= 2 else [], names[:1] + ['Y'], ['Y'] + names[:1], ['C'] + names[1:2]):
                     yield {'aliases': amap, 'preferred': list(pref)}
 
     @staticmethod
@@ -258,6 +258,8 @@ class AliasTwin(BoundedCheck):
         finally:
             signal.alarm(0)
         clean = {k: v for k, v in amap.items() if k != v}
+        pref_targets = [self.resolve(clean, p) for p in pref]
+        ambiguous = len(set(pref_targets)) != len(pref_targets)
         twin = Base(span, G=2.0)
         names = self.VARS + [a for a in amap if a not in self.VARS]
         # constructor keyword through each name
@@ -319,6 +321,9 @@ class AliasTwin(BoundedCheck):
             if not amb:
                 bad('export with use_aliases only renames columns', 'c18.export-rejects', amap, 'renamed table', 'ValueError')
             return out
+        if ambiguous:
+            bad('ambiguous preferences (two preferred names for one variable) are rejected', 'c18.ambiguous-preference-accepted', (amap, pref), 'ValueError', 'accepted', 'ambiguous_preferences_rejected')
+            return out
         if df.shape != df0.shape or not all(eq_arr(df.iloc[:, i].values, df0.iloc[:, i].values) for i in range(df0.shape[1])):
             bad('exporting with use_aliases changes, drops or duplicates no data column', 'c18.export-data', amap, list(df0.columns), list(df.columns), 'rename_only')
         else:
@@ -347,7 +352,7 @@ class TabularRoundTrip(BoundedCheck):
 
     def cases(self, tier, seed):
         from props.containers_bounded import span_catalogue
-        for sname in span_catalogue(4):
+        for sname in list(span_catalogue(4)) + ['unsorted-int', 'unsorted-str']:
             if sname in ('list-mixed',):
                 continue
             for flags in itertools.product((True, False), repeat=3):
@@ -413,10 +418,15 @@ class TabularRoundTrip(BoundedCheck):
                     bad('numeric and boolean dtypes are preserved', f'c19.dtype:{tag}', str(src.dtype), str(df[c].values.dtype), 'dtype')
         if case['kind'] == 'model':
             res.cover('model')
-            span = span_catalogue(4)[case['span']]
+            extra_spans = {'unsorted-int': [2003, 2001, 2004, 2002], 'unsorted-str': ['scenario-b', 'baseline', 'scenario-a', 'zeta']}
+            span = extra_spans[case['span']] if case['span'] in extra_spans else span_catalogue(4)[case['span']]
             m = build(span, case['layout'])
             st, it, internal = case['flags']
+            names_before, index_before = list(m.names), list(m.index)
+            m.to_dataframe(status=True, iterations=True, include_internal=True)
             df = m.to_dataframe(status=st, iterations=it, include_internal=internal)
+            if list(m.names) != names_before or list(m.index) != index_before:
+                bad('exporting does not alter the model', 'c19.export-mutates-model', names_before, list(m.names), 'export_does_not_alter_the_model')
             check_table(m, df, st, it, internal, 'model')
             df2 = fsic.tools.model_to_dataframe(m, status=st, iterations=it, include_internal=internal)
             if not df.equals(df2):
